@@ -153,3 +153,27 @@ def mon_c05w(spec, run):
     # every PUT the object handed to the connection is written exactly once, in order, unchanged (C01's monitor on the same trace)
     bad += [("wire-" + k, t) for k, t in mon_c01(spec, run) if k in ("twice", "lost", "not-written", "framing", "foreign", "order", "thread-died")]
     return bad
+
+
+def mon_c04_race(spec, run):
+    """concurrent decoding through a shared converter = the model's (sequential) decoding of each text"""
+    evs = [e for e in run.trace if e["k"] == "conv"]
+    model = core.run_driver("decode", [f"{spec['class']} {spec['fn']} {core.hx(e['text'])}" for e in evs])
+    bad = []
+    for e, m in zip(evs, model):
+        if m == "U":
+            continue
+        real = e["res"]
+        if m == "R":
+            ok = real.startswith("R ")
+        else:
+            mv = m[3:]
+            if mv.startswith("d:"):
+                _, mant, fr = mv.split(":")
+                f = Fraction(float(Fraction(int(mant), 10 ** int(fr))))
+                mv = f"F:{f.numerator}/{f.denominator}"
+            ok = real == "OK " + ("NONE" if mv == "n" else mv)
+        if not ok:
+            bad.append(("concurrent-decode", f"thread {e['i']} decoded {e['text']!r} for {spec['class']}.{spec['fn']} as {real}; sequentially it decodes as {m}"))
+            break
+    return bad
